@@ -950,7 +950,7 @@ func readBack(c *Case, mf *memfile.MemFile, models []*fontModel, names []pdf.Nam
 		return fmt.Errorf("reader.ProcessPage: %v", err)
 	}
 	if len(viaReader) != len(allRead) {
-		return fmt.Errorf("reader.Reader reports %d characters, the content stream has %d codes", len(viaReader), len(allRead))
+		return fmt.Errorf("reader.Reader reports %d characters, the content stream shows %d codes in rendering modes other than 3 (invisible)", len(viaReader), len(allRead))
 	}
 	for j := range allRead {
 		a, b := allRead[j], viaReader[j]
